@@ -129,7 +129,7 @@ def verify_registration_response(
             f'Unexpected client data type "{client_data.type}", expected "{ClientDataType.WEBAUTHN_CREATE}"'
         )
 
-    if expected_challenge != client_data.challenge:
+    if byteslike_to_bytes(expected_challenge) != client_data.challenge:
         raise InvalidRegistrationResponse("Client data challenge was not expected challenge")
 
     if isinstance(expected_origin, str):
